@@ -15,6 +15,8 @@ Local Open Scope Z_scope.
 (* ---------- lib/mathx/unstable.go ---------- *)
 (* AroundDuration(base) = time.Duration((1 + dev - 2*dev*u) * float64(base)), u the draw in [0,1) *)
 Definition factor (dev u : Q) : Q := (1 + dev - 2 * dev * u)%Q.
+(* the statement's +/-5 % (hand-written; Link.link_expireDeviation ties cache.expireDeviation to it) *)
+Definition expire_deviation : Q := (1 # 20)%Q.
 Definition around (f : Q) (base : Z) : Z := Qfloor (f * inject_Z base).
 
 (* options.go: Expire / NotFoundExpire (ns) ; cachedsql.go:14 the index/primary safety gap (ns) *)
